@@ -114,6 +114,40 @@ type Layout struct {
 	R     *rand.Rand
 	Plain bool // canonical layout (no whitespace, comments, variants)
 	Count func(string)
+	// NS: 0 no namespace; 1 default namespace declared on the root; 2 every known element
+	// carries the prefix declared on the root.  The tree handed to the model keeps local names;
+	// the declaration is an attribute of the root there (ApplyNS).
+	NS     int
+	prefix string
+}
+
+// NSURL is the namespace used by the namespace layouts.
+const NSURL = "http://openstreetmap.org/osm/0.6"
+
+// ApplyNS records the namespace declaration on the root of the tree as encoding/xml reports
+// it: attribute xmlns (default namespace) or an attribute whose local name is the prefix.
+func (l *Layout) ApplyNS(root *XNode) {
+	switch l.NS {
+	case 1:
+		root.Attrs = append(root.Attrs, XAttr{"xmlns", S(NSURL)})
+	case 2:
+		l.prefix = "osmns"
+		root.Attrs = append(root.Attrs, XAttr{l.prefix, S(NSURL)})
+	}
+}
+
+func (l *Layout) elemName(n *XNode) string {
+	if l.NS == 2 && !n.Extra {
+		return l.prefix + ":" + n.Name
+	}
+	return n.Name
+}
+
+func (l *Layout) attrName(n *XNode, root bool, a XAttr) string {
+	if root && l.NS == 2 && a.Name == l.prefix {
+		return "xmlns:" + a.Name
+	}
+	return a.Name
 }
 
 func (l *Layout) count(k string) {
@@ -232,8 +266,10 @@ func isTextElem(n *XNode) bool {
 	return n.Leaf || !(n.Text.Kind == AStr && n.Text.S == "")
 }
 
-func (l *Layout) node(b *strings.Builder, n *XNode) {
-	b.WriteString("<" + n.Name)
+func (l *Layout) node(b *strings.Builder, n *XNode) { l.nodeR(b, n, false) }
+
+func (l *Layout) nodeR(b *strings.Builder, n *XNode, root bool) {
+	b.WriteString("<" + l.elemName(n))
 	for _, a := range n.Attrs {
 		q := byte('"')
 		if l.coin(3) {
@@ -247,7 +283,7 @@ func (l *Layout) node(b *strings.Builder, n *XNode) {
 		if l.coin(8) {
 			eq = " = "
 		}
-		b.WriteString(sp + a.Name + eq + string(q) + l.escape(l.Lexical(a.Val), q) + string(q))
+		b.WriteString(sp + l.attrName(n, root, a) + eq + string(q) + l.escape(l.Lexical(a.Val), q) + string(q))
 	}
 	if l.coin(6) {
 		b.WriteString(" ")
@@ -292,7 +328,7 @@ func (l *Layout) node(b *strings.Builder, n *XNode) {
 		}
 		b.WriteString(l.ws() + l.misc())
 	}
-	b.WriteString("</" + n.Name)
+	b.WriteString("</" + l.elemName(n))
 	if l.coin(8) {
 		b.WriteString(" ")
 	}
@@ -309,7 +345,7 @@ func (l *Layout) Render(root *XNode) []byte {
 		l.count("layout:xml-decl")
 	}
 	b.WriteString(l.misc())
-	l.node(&b, root)
+	l.nodeR(&b, root, true)
 	b.WriteString(l.ws())
 	return []byte(b.String())
 }
